@@ -18,19 +18,19 @@ import (
 type Kind int
 
 const (
-	KByte  Kind = iota // single byte
-	KU16               // two byte integer
-	KU32               // four byte integer
-	KVBI               // variable byte integer
-	KStr               // UTF-8 string: 2 byte length prefix + body
-	KBin               // binary data: 2 byte length prefix + body
-	KRaw               // raw bytes without structure (PUBLISH payload)
-	KProps             // property section: length (VBI) + properties
-	KProp              // one property: identifier byte + value
-	KPair              // UTF-8 string pair (two KStr kids)
-	KFirst             // first byte of the fixed header
-	KRemLen            // remaining length field
-	KPropLen           // property length field
+	KByte    Kind = iota // single byte
+	KU16                 // two byte integer
+	KU32                 // four byte integer
+	KVBI                 // variable byte integer
+	KStr                 // UTF-8 string: 2 byte length prefix + body
+	KBin                 // binary data: 2 byte length prefix + body
+	KRaw                 // raw bytes without structure (PUBLISH payload)
+	KProps               // property section: length (VBI) + properties
+	KProp                // one property: identifier byte + value
+	KPair                // UTF-8 string pair (two KStr kids)
+	KFirst               // first byte of the fixed header
+	KRemLen              // remaining length field
+	KPropLen             // property length field
 )
 
 var kindNames = map[Kind]string{KByte: "byte", KU16: "u16", KU32: "u32", KVBI: "vbi", KStr: "str", KBin: "bin", KRaw: "raw", KProps: "props", KProp: "prop", KPair: "pair", KFirst: "first", KRemLen: "remlen", KPropLen: "proplen"}
